@@ -871,10 +871,10 @@ def _register_bounded2():
                         doc="BOUNDED stand-in: band-energy derivative relation at orthonormal coefficients (fixed Hamiltonian)"))
 
 
-def nat_grad_coarse_even_grid(xc):
+def nat_grad_coarse_even_grid(xc, s=(6, 6, 8), pot="gth", unrestricted=None, kmesh=None):
     def f(rng):
-        """The derivative relation on a user-chosen COARSE EVEN sampling (smaller than the default one): products of orbitals reach the
-        Nyquist planes of the FFT box."""
+        """The derivative relation for a functional family / external potential / sampling; s = (6, 6, 8) is a user-chosen COARSE EVEN
+        sampling (smaller than the default one): products of orbitals reach the Nyquist planes of the FFT box."""
         import eminus
         from eminus import SCF, Atoms
         from eminus.dft import get_grad, guess_random
@@ -882,9 +882,12 @@ def nat_grad_coarse_even_grid(xc):
 
         eminus.config.backend = "numpy"
         eminus.config.verbose = "critical"
-        at = Atoms(["Li", "H"], [[0.2, 0.1, 0.3], [0.4, 0.2, 3.1]], ecut=4, a=[[6.0, 0.3, 0.1], [0.2, 6.5, 0.4], [0.5, 0.1, 7.0]])
-        at.s = [6, 6, 8]
-        scf = SCF(at, xc=xc, verbose="critical")
+        at = Atoms(["Li", "H"], [[0.2, 0.1, 0.3], [0.4, 0.2, 3.1]], ecut=4, a=[[6.0, 0.3, 0.1], [0.2, 6.5, 0.4], [0.5, 0.1, 7.0]],
+                   unrestricted=unrestricted)
+        at.s = list(s)
+        if kmesh:
+            at.kpts.kmesh = list(kmesh)
+        scf = SCF(at, xc=xc, pot=pot, verbose="critical")
         at = scf.atoms
         W = [np.asarray(w) for w in guess_random(scf)]
         W = [w @ (np.eye(w.shape[-1]) + 0.3 * rnd(rng, w.shape[-1], w.shape[-1])) for w in W]
@@ -912,6 +915,28 @@ def _register_coarse():
                             run=BoundedNative(nat_grad_coarse_even_grid(xc), 1, tol=1e-6, what=f"slope of the total energy vs 2 Re<grad, D> on the coarse even sampling s = (6, 6, 8), xc = {xc}"),
                             budget={"quick": 200, "thorough": 400},
                             doc="BOUNDED: derivative relation on a coarse even FFT sampling (orbital products reach the Nyquist planes)"))
+
+
+def _register_families():
+    """The derivative relation per functional family and external potential (odd sampling (7, 7, 9), triclinic LiH, non-orthonormal W)."""
+    cases = (("mgga_scan_unpol", ":MGGA_X_SCAN,:MGGA_C_SCAN", "gth", False, None),
+             ("mgga_scan_pol", ":MGGA_X_SCAN,:MGGA_C_SCAN", "gth", True, None),
+             ("mgga_tpss_pol_2k", ":MGGA_X_TPSS,:MGGA_C_TPSS", "gth", True, (2, 1, 1)),
+             ("pbe_coulomb", "pbe", "coulomb", False, None),
+             ("lda_harmonic_pol", "lda,chachiyo", "harmonic", True, None),
+             ("pbesol_lr", "pbesol", "lr", False, None),
+             ("lda_ge_2k", "lda,vwn", "ge", False, (1, 2, 1)))
+    for tag, xc, pot, unres, km in cases:
+        # SCAN on the DEFAULT sampling (11, 11, 14): on a coarser one aliasing gives grid points with tau < |grad n|^2 / (8 n), where Libxc
+        # clamps sigma to 8 n tau inside the functional (its derivatives are then not those of the clamped function: 2e-2 at (7, 7, 9),
+        # 1e-10 at the default sampling; a property of the external library on unphysical input, not of eminus)
+        smp = (11, 11, 14) if "SCAN" in xc else (7, 7, 9)
+        register(Obligation(name=f"C01.total_energy.slope_eq_2Re_grad_D.family.{tag}", prop="C01", engine="B", bounded=True,
+                            functions=["eminus.dft:get_grad", "eminus.dft:H", "eminus.gga:calc_Vtau", "eminus.gga:gradient_correction", "eminus.energies:get_E"],
+                            run=BoundedNative(nat_grad_coarse_even_grid(xc, s=smp, pot=pot, unrestricted=unres, kmesh=km), 1, tol=1e-6,
+                                              what=f"slope of the total energy vs 2 Re<grad, D>: xc = {xc}, pot = {pot}, unrestricted = {unres}, kmesh = {km}, s = {smp}"),
+                            budget={"quick": 300, "thorough": 600},
+                            doc="BOUNDED: derivative relation per functional family (meta-GGA through the Libxc bridge of PySCF) and external potential"))
 
 
 def nat_hermitian_even_grid_gga(rng):
@@ -944,4 +969,5 @@ def _register_even_grid():
 _register_bounded()
 _register_bounded2()
 _register_coarse()
+_register_families()
 _register_even_grid()
